@@ -156,6 +156,8 @@ class CallsMixin:
             sf = self.spec_function(f)
             if sf is not None:
                 return sf(args, kwargs, fr)
+        if type(f).__name__ == "GhostFn":
+            return f.fn(*args)
         if isinstance(f, BoundMethod):
             return self.call_method(f.obj, f.name, args, kwargs, fr, awaited)
         if isinstance(f, Closure):
@@ -232,10 +234,16 @@ class CallsMixin:
         if node.args.vararg:
             f2.local_names.add(node.args.vararg.arg)
         self.bind_params(node.args, args, kwargs, f2, qn)
+        frames = getattr(self, "frames", None)
+        if frames is None:
+            frames = self.frames = []
+        frames.append(f2)
         try:
             self.exec_block(node.body, f2)
         except ReturnSig as r:
             return r.value
+        finally:
+            frames.pop()
         return None
 
     def bind_params(self, a: ast.arguments, args, kwargs, f2: Frame, qn):
@@ -342,6 +350,17 @@ class CallsMixin:
                     mi, node, owner = md
                     self.run_function(node, mi, f"{owner.__module__}:{owner.__qualname__}.__init__", [obj] + list(args), kwargs)
             return obj
+        if (cls.__module__ or "").split(".")[0] in ("h2", "h11", "wsproto"):
+            # library value class (event): the call must bind to the installed signature
+            try:
+                sig = inspect.signature(cls)
+                marks = [object() for _ in args]
+                ba = sig.bind(*args, **kwargs)
+            except TypeError as ex:
+                raise mk_exc(TypeError, f"{cls.__name__}(): {ex}", where=fr.where())
+            ba.apply_defaults()
+            flds = {k: v for k, v in ba.arguments.items()}
+            return SObj(cls, flds)
         raise Unsupported(f"instantiate {cls!r} at {fr.where()}")
 
     def new_dataclass(self, cls, args, kwargs, fr):
